@@ -115,8 +115,10 @@ func (vm *VM) GetLocals(locals []Object) []Object {
 // Abort aborts the VM execution. It is safe to call this method from another
 // goroutine.
 func (vm *VM) Abort() {
-	vm.pool.abort()
+	// set the flag of this VM before the flags of its child VMs: a child VM
+	// that resets its own flag when it starts to run checks this one afterwards.
 	vm.abort.Store(1)
+	vm.pool.abort()
 }
 
 // Aborted reports whether VM is aborted. It is safe to call this method from
@@ -127,6 +129,12 @@ func (vm *VM) Aborted() bool {
 
 // Run runs VM and executes the instructions until the OpReturn Opcode or Abort call.
 func (vm *VM) Run(globals Object, args ...Object) (Object, error) {
+	return vm.runVM(true, globals, args...)
+}
+
+// runVM runs the VM. If resetAbort is false, the caller has already reset the
+// abort flag and an Abort call made since then must not be lost.
+func (vm *VM) runVM(resetAbort bool, globals Object, args ...Object) (Object, error) {
 	vm.mu.Lock()
 	defer vm.mu.Unlock()
 
@@ -136,7 +144,14 @@ func (vm *VM) Run(globals Object, args ...Object) (Object, error) {
 
 	verifSync("run.enter", vm)
 	vm.err = nil
-	vm.abort.Store(0)
+	if resetAbort {
+		vm.abort.Store(0)
+	}
+	if root := vm.pool.root; root != nil && root != vm && root.Aborted() {
+		// child VM of an aborted VM: the abort may have been signalled to this
+		// VM before the reset above, or before it was acquired.
+		vm.abort.Store(1)
+	}
 	verifSync("run.reset", vm)
 	vm.initGlobals(globals)
 	vm.initLocals(args)
